@@ -31,7 +31,15 @@ pub struct CaseD
 
 /*  `fixed_n` / `fixed_ns`: harness variants with concrete vector lengths (a Vec of symbolic
     length costs CBMC far more than the case split); the raw layout is the same either way. */
+/*  `fixed_targets`: rule i's (first) target is the i-th of a, b, c -- the rules arrive sorted by
+    target, as rules_to_frame_buffer makes them; since the edges stay symbolic this still covers
+    every labelling of a 3-rule graph up to the renaming that sorting performs. */
 pub fn decode(raw : &mut Raw, two_target_rule : bool, fixed_n : Option<usize>, fixed_ns : Option<usize>) -> CaseD
+{
+    decode_ex(raw, two_target_rule, fixed_n, fixed_ns, false)
+}
+
+pub fn decode_ex(raw : &mut Raw, two_target_rule : bool, fixed_n : Option<usize>, fixed_ns : Option<usize>, fixed_targets : bool) -> CaseD
 {
     let n_raw = 1 + raw.below(NR as u8) as usize;
     let n = match fixed_n { Some(k) => k, None => n_raw };
@@ -40,8 +48,11 @@ pub fn decode(raw : &mut Raw, two_target_rule : bool, fixed_n : Option<usize>, f
     while i < NR
     {
         let nt = if two_target_rule && i == 0 { 1 + raw.below(2) as usize } else { 1 };
-        let t0 = TNAMES[raw.below(4) as usize];
-        let t1 = TNAMES[raw.below(4) as usize];
+        let t0_raw = TNAMES[raw.below(4) as usize];
+        let t0 = if fixed_targets { TNAMES[i] } else { t0_raw };
+        let t1_raw = TNAMES[raw.below(4) as usize];
+        /*  with fixed targets a second target can only be d (keeps the rule order fixed) */
+        let t1 = if fixed_targets { TNAMES[3] } else { t1_raw };
         if nt == 2 { vassume(t0 != t1); }
         let ns_raw = raw.below(3) as usize;
         let ns = match fixed_ns { Some(k) => k, None => ns_raw };
@@ -53,8 +64,9 @@ pub fn decode(raw : &mut Raw, two_target_rule : bool, fixed_n : Option<usize>, f
     }
     let has_goal = raw.flag();
     let g = SNAMES[raw.below(6) as usize];
-    let rot = raw.below(NR as u8) as usize;
-    let flip = raw.flag();
+    let rot_raw = raw.below(NR as u8) as usize;
+    let flip_raw = raw.flag();
+    let (rot, flip) = if fixed_targets { (0, false) } else { (rot_raw, flip_raw) };
     CaseD { n, rules, goal : if has_goal { Some(g) } else { None }, rot, flip }
 }
 
